@@ -116,6 +116,20 @@ func init() {
 					emit(hx(line) + "\t\t\t" + encList(probes))
 					continue
 				}
+				if g.Chance(1, 12) {
+					// a line with ONE name and, among the probes, a different name with the same 32-bit hash: the DNS
+					// engine must compare the name after the bucket hit
+					findCollisions()
+					pr := Pick(g, collidingHosts)
+					k := g.Intn(2)
+					ip := Pick(g, hostsIPs)
+					line := ip + Pick(g, []string{" ", "\t", "  "}) + pr[k]
+					if g.Chance(1, 3) {
+						line, ip = pr[k], "0.0.0.0"
+					}
+					emit(hx(line) + "\t" + hx(ip) + "\t" + encList([]string{pr[k]}) + "\t" + encList(append(probes, pr[k], pr[1-k])))
+					continue
+				}
 				line, ip, names := genHostsLine(g)
 				if ip == "0.0.0.0" && len(names) == 1 && !strings.HasPrefix(strings.TrimLeft(line, " \t"), "0.0.0.0") && !filterutil.IsDomainName(names[0]) {
 					// a bare name that is not a domain name is outside the grammar
